@@ -288,3 +288,57 @@ def check_atomic_values(res: Result, lcs: List[LaunchCtx]):
         Finding("R-RACE.3", f"{lc.name}|{a.root}|stores-atomic-result", f"`{a.root}` ({dt}) stores a value computed from the result of an atomic (`{show(a.value)[:70]}`): the stored number depends on the order in which threads arrive", a.loc),
       )
   return n
+
+
+# cycle walkers: they follow tree_asleep links through a whole sleep cycle (cells of other trees by construction); the
+# entry cell is what the caller decides on. _sleep_cycle only reads (returns -1 as soon as it meets an awake link).
+WALKER_FUNCS = ("sleep._wake_tree", "sleep._sleep_cycle")
+
+
+def check_wake_snapshot(res, lcs) -> int:
+  """R-RACE.5 (the mechanisable part of the sleep-cycle waking idiom): in a kernel tabled as WAKE, threads race on
+  Data.tree_asleep through the walker `_wake_tree`. What makes the *set* of woken trees schedule-independent is that
+  every decision a thread takes about a tree it does not own is based on a snapshot array that this launch does not
+  write (tree_awake): each read of the racy array outside the walker, at a cell other than the thread's own, must be
+  control-dependent on a test of a non-written array at the same cell."""
+  from ..tables import race_tables
+
+  n = 0
+  for lc in lcs:
+    racy = [root for (k, root), v in race_tables.WRITE_IDIOMS.items() if k == lc.name and v is race_tables.WAKE]
+    if not racy:
+      continue
+    acc = lc.keval.accesses
+    written_keys = {array_key(lc, a.root) for a in acc if a.is_write}
+    racy_keys = {array_key(lc, r) for r in racy}
+    own = tuple(T("tid", k) for k in range(lc.keval.ntid))
+    seen = set()
+    for a in acc:
+      if a.kind != "r" or array_key(lc, a.root) not in racy_keys:
+        continue
+      if a.func.split(".kernel")[0] in WALKER_FUNCS or any(a.func.endswith(w.split(".")[-1]) for w in WALKER_FUNCS):
+        continue
+      if tuple(a.idx) == own[: len(a.idx)]:
+        continue  # the thread's own cell
+      k = (a.func, a.loc, tuple(a.idx))
+      if k in seen:
+        continue
+      seen.add(k)
+      n += 1
+      ok = False
+      for t, pol in pc_literals(a.pc):
+        for s in subterms(t):
+          if s.op == "ld" and tuple(s.args[1:]) == tuple(a.idx) and array_key(lc, s.args[0]) not in written_keys:
+            ok = True
+      res.ob(
+        ok,
+        f"{lc.name}|{a.func.split('.')[-1]}|snapshot|{a.loc.rsplit(':', 1)[-1]}",
+        Finding(
+          "R-RACE.5",
+          f"{lc.name}|{array_key(lc, a.root)}|decision-on-racy-cell",
+          f"`{a.root}[{', '.join(show(i)[:50] for i in a.idx)}]` is read outside the walker without a dominating test of a snapshot array at the same cell: other threads of this launch write that cell through _wake_tree, so whether/which trees are woken depends on thread order",
+          a.loc,
+        ),
+        sample={"kernel": lc.name, "read": a.loc, "func": a.func},
+      )
+  return n
